@@ -23,6 +23,7 @@ ASSUMPTIONS = ["transform arguments are separated by single commas/spaces (parse
                "circles/ellipses are compared as point sets (the library starts them at 9 o'clock)"]
 # coverage-guided second engine (atheris), thorough tier only: (shards, libFuzzer runs per shard)
 FUZZ = {'thorough': (16, 8000)}
+RULE += ' Also: Transform lists separated by white space and/or a comma, blank before the parenthesis.'   # added after the seeded-change rounds (DESIGN.md section 10)
 CONFIGS = ['scipy']
 BUDGET = {'quick': 4000, 'thorough': 60000}
 REQUIRED = ['tf_list_sep:comma', 'tf_list_sep:wsp', 'leaf:path', 'leaf:line', 'leaf:polyline', 'leaf:polygon', 'leaf:rect', 'leaf:rect_rounded', 'leaf:circle', 'leaf:ellipse',
